@@ -306,6 +306,27 @@ def run_cli_directed(ctx):
                      ['validate', '-r', 'r.guard', '-d', 'd.json', '-i', 'd.yaml'],
                      ['test', '-r', 'r.guard', '-t', 'spec.json'], ['test', '-r', 'r.guard', '-t', 'spec.yaml', '-o', 'junit'], ['rulegen', '-t', 'd.json']):
             jobs.append({'args': args, 'cwd': d}); meta.append(('edge number %s' % num, args, files))
+    # files that are not valid UTF-8 in every role, alone and next to healthy files (the order of a directory walk decides
+    # which error code meets which fold): rules, data, parameter and test-spec files through validate / test / parse-tree / rulegen
+    bad_bytes = b'rule x {\n  a == "\xff\xfe" \xc3\x28\n}\n'
+    good_rule = 'rule t {\n  x == 1\n}\n'
+    spec_ok = json.dumps([{'name': 'c', 'input': {'x': 1}, 'expectations': {'rules': {'t': 'PASS'}}}])
+    for layout in ('bad-first', 'bad-last', 'bad-only', 'bad-middle'):
+        d = os.path.join(ctx.wd, 'cli%d' % len(jobs))
+        names = {'bad-first': ['a_bad', 'b_good', 'c_good'], 'bad-last': ['a_good', 'b_good', 'z_bad'], 'bad-only': ['a_bad'], 'bad-middle': ['a_good', 'b_bad', 'c_good']}[layout]
+        files = {'d.json': '{"x": 1}', 'bad.json': b'{"x": "\xff"}', 'bad.yaml': b'x: \xc3\x28\n'}
+        for nm in names:
+            files['t/%s.guard' % nm] = bad_bytes if nm.endswith('bad') else good_rule
+            files['t/tests/%s_tests.yaml' % nm] = spec_ok
+        files['t/tests/zz_bad_tests.yaml'] = b'- name: c\n  input: {x: "\xff"}\n'
+        e2e.write_files(d, files)
+        for args in (['test', '-d', 't'], ['test', '-d', 't', '-o', 'json'], ['test', '-d', 't', '-o', 'yaml'], ['test', '-d', 't', '-o', 'junit'],
+                     ['validate', '-r', 't', '-d', 'd.json'], ['validate', '-r', 't', '-d', 'd.json', '--structured', '-o', 'json', '-S', 'none'],
+                     ['validate', '-r', 't', '-d', 'd.json', '--structured', '-o', 'junit', '-S', 'none'],
+                     ['validate', '-r', 't/%s.guard' % names[0], '-d', 'bad.json'], ['validate', '-r', 't/%s.guard' % names[-1], '-d', 'bad.yaml', '--structured', '-o', 'json', '-S', 'none'],
+                     ['validate', '-r', 't', '-d', 'd.json', '-i', 'bad.yaml'], ['parse-tree', '-r', 't/%s.guard' % names[0]], ['rulegen', '-t', 'bad.json'],
+                     ['test', '-r', 't/%s.guard' % names[-1], '-t', 't/tests/zz_bad_tests.yaml'], ['test', '-r', 't/%s.guard' % names[-1], '-t', 't/tests/zz_bad_tests.yaml', '-o', 'json']):
+            jobs.append({'args': args, 'cwd': d}); meta.append(('non-UTF-8 files (%s)' % layout, args, {k: (v if isinstance(v, str) else repr(v)) for k, v in files.items()}))
     n = 0
     for (what, args, files), (code, so, se) in zip(meta, e2e.run_many(jobs, timeout=30)):
         n += 1
